@@ -4,6 +4,7 @@ import O2P.Lemmas.InferOr
 import O2P.Lemmas.InferOrTree
 import O2P.Lemmas.PostFlat
 import O2P.Lemmas.InferOrAll
+import O2P.Lemmas.MissingAndAll
 /-!
 # C06 — gate inference explains all observed successor sets; exact without mixed OR
 The quantifier of C06 is finite and is enumerated by `domain`: `domain_counts` (kernel-checked) gives
@@ -163,6 +164,24 @@ example :
   refine ⟨by decide +kernel, ?_, by decide +kernel⟩
   simp [inferOrAll, inferOrAllL, inferOrNode, classify, PTree.isTau, grandchildrenOf, checkIsOr, PTree.toGate,
     PTree.toGateL]
+
+/-- **C06, the AND recovery over the whole tree** (`process_missing_and_gates` = `missingAnd`): for a tree that names
+every event once and observed sets without repetitions or empty names, **every** outcome — every choice the cover step
+can make, at every OR gate over plain events, anywhere in the tree, to any depth — produces every non-empty observed
+set the tree produced before.  (`Lemmas/MissingAndAll.lean`: one rebuilt gate stands for the flat one by `cover_spec`
+— the members of the cover lying inside a set make it up —, and the `Good` congruence, restated for children related
+position by position, carries it through the recursion.) -/
+theorem missing_and_all_sound (F : List (List String)) (hF : ∀ s0 ∈ F, "" ∉ s0) (hFnd : ∀ s0 ∈ F, s0.Nodup)
+    (fuel : Nat) (t : PTree) (hnd : (NE t.labels).Nodup) (o : PTree) (ho : o ∈ missingAnd fuel F t)
+    (s : List String) (hs : s ∈ F) (hne : s ≠ []) (hraw : t.sem s) : o.sem s :=
+  (missingAnd_good F hF hFnd fuel t hnd o ho).pos s hne ⟨s, hs, fun _ _ => Iff.rfl⟩ hraw
+
+/-- non-vacuity: `X(e, O(a, b, c))` with the observations `{e} {a,b} {c} {a,b,c}` has an outcome (the OR gate is
+rebuilt as `O(c, +(a,b))` or left alone), names every event once, and produces `{a,b}` -/
+example :
+    let t : PTree := .node .xor [.leaf "e", .node .or [.leaf "a", .leaf "b", .leaf "c"]]
+    (NE t.labels).Nodup ∧ (weightedCover (projF [["e"], ["a", "b"], ["c"], ["a", "b", "c"]] ["a", "b", "c"])
+      ["a", "b", "c"]) = [some [["c"], ["a", "b"]]] := by decide +kernel
 
 /-- the executable test of the model (`checkIsOr`, compared with the real function on generated trees) is that
 decision on the labels of the subtrees -/
